@@ -188,3 +188,143 @@ Proof.
   pose proof (drain_is_cden _ _ _ _ _ _ Hd1 (S f0) a wE g Hn ltac:(lia) HD) as Heq. injection Heq as _ ->.
   rewrite (quiet_query_stopped _ HqE) in H. now inversion H.
 Qed.
+
+(* a call node stays a call node of the same goal *)
+Lemma call_loop_shape kb bf : forall F t ss nobt child idx n w nd' r c w1,
+  call_loop kb bf F t ss nobt child idx n w = Ok (nd', r, c, w1) -> exists b ch i, nd' = NCall t ss b ch i n.
+Proof.
+  induction F as [|F IH]; intros t ss nobt child idx n w nd' r c w1 H; [discriminate|].
+  rewrite call_loop_S in H. unfold call_body in H.
+  destruct nobt; [inversion H; subst; eauto|].
+  destruct (n <=? idx); [inversion H; subst; eauto|].
+  dbind1 H as key Ek. dbind2 H as r0 ctr Eg. dbind1 H as u Eu.
+  destruct u as [s|]; [|exact (IH _ _ _ _ _ _ _ _ _ _ _ H)].
+  destruct (is_gnil (r_body r0)); [inversion H; subst; eauto|].
+  dbind2 H as c0 w2 E2. dbind H as n3 o3 b3 w3 E3.
+  destruct o3 as [s2|]; [inversion H; subst; eauto|].
+  exact (IH _ _ _ _ _ _ _ _ _ _ _ H).
+Qed.
+Lemma nc_call_shape kb bf F t ss nobt child idx n w nd' r c w1 :
+  next kb bf F (NCall t ss nobt child idx n) w = Ok (nd', r, c, w1) -> exists b ch i, nd' = NCall t ss b ch i n.
+Proof.
+  destruct F as [|F]; [discriminate|]. rewrite next_S. unfold next_body. cbn [node_nobt].
+  destruct nobt; [intro H; inversion H; subst; eauto|].
+  destruct child as [c0|]; [|apply call_loop_shape].
+  intro H. dbind H as n1 o1 b1 wa E1. destruct o1 as [s|]; [inversion H; subst; eauto|].
+  exact (call_loop_shape _ _ _ _ _ _ _ _ _ _ _ _ _ _ H).
+Qed.
+
+(* ---- n requests, one after the other (also beyond exhaustion) ---- *)
+Section Requests.
+  Variable kb : kbase.
+  Variable bf : nat.
+
+  Inductive Asks : node -> world -> list (option subst) -> node -> world -> Prop :=
+  | Asks_nil nd w : Asks nd w [] nd w
+  | Asks_cons F nd w nd1 r c w1 rs nd' w' :
+      next kb bf F nd w = Ok (nd1, r, c, w1) -> Asks nd1 w1 rs nd' w' -> Asks nd w (r :: rs) nd' w'.
+
+  Lemma asks_dead nd w rs nd' w' : Asks nd w rs nd' w' -> dead nd -> rs = repeat None (length rs) /\ w' = w /\ dead nd'.
+  Proof.
+    induction 1 as [nd w|F nd w nd1 r c w1 rs nd' w' E _ IH]; intro Hd; [auto|].
+    destruct (dead_stays _ _ _ _ _ _ _ _ _ Hd E) as (-> & _ & -> & Hd1).
+    destruct (IH Hd1) as (Hr & -> & Hd'). cbn [length repeat]. now rewrite <- Hr.
+  Qed.
+
+  (* the answers of n requests are the first n reference answers, then None for ever; once the
+     answers are exhausted the world is the reference's final world and no longer changes *)
+  Theorem asks_are_reference_answers nd w rs nd' w' : Asks nd w rs nd' w' ->
+    forall fs a wE g, ncutb nd = true -> (1 <= fs)%nat -> cden kb bf fs nd w collect = Ok (a, wE, g) ->
+      rs = map Some (firstn (length rs) a) ++ repeat None (length rs - length a) /\
+      (length a < length rs -> w' = wE)%nat.
+  Proof.
+    induction 1 as [nd w|F nd w nd1 r c w1 rs nd' w' E1 HA IH]; intros fs a wE g Hn Hfs HD.
+    { cbn. split; [reflexivity|lia]. }
+    destruct (ncut_next _ _ _ _ _ _ _ _ _ Hn E1) as [-> Hn1].
+    pose proof (cden_step _ _ _ _ _ _ _ _ _ _ _ _ Hfs E1 HD) as Hs.
+    destruct r as [s|].
+    - destruct Hs as (a1 & wx & g1 & Hk1 & Hs). unfold collect in Hk1. injection Hk1 as <- <- <-.
+      destruct Hs as (a2 & w3 & g2 & Hd2 & Heq). injection Heq as -> -> ->.
+      destruct (IH _ _ _ _ Hn1 Hfs Hd2) as [Hr Hw]. cbn [length firstn map app Nat.sub].
+      split; [now rewrite <- Hr|]. intro Hlt. apply Hw. cbn [length app] in Hlt. lia.
+    - injection Hs as -> -> ->. cbn [length firstn map app Nat.sub].
+      assert (dead nd1) as Dd by (eapply none_then_dead; eauto).
+      destruct (asks_dead _ _ _ _ _ HA Dd) as (Hr & -> & _). cbn [repeat]. split; [now rewrite <- Hr|]. reflexivity.
+  Qed.
+End Requests.
+
+(* solve, called n times on a freshly made query with no stop pending: the texts are the first n
+   reference answers formatted, then `No more.` for ever *)
+Fixpoint solve_times (n : nat) (fuel : nat) (kb : kbase) (nd : node) (w : world) : res (list str * node * world) :=
+  match n with
+  | O => Ok ([], nd, w)
+  | S n' =>
+      do x <- solve fuel kb nd w;
+      let '(nd1, txt, w1) := x in
+      do y <- solve_times n' fuel kb nd1 w1;
+      let '(txts, nd', w') := y in Ok (txt :: txts, nd', w')
+  end.
+
+Definition solve_text (fuel : nat) (q : term) (r : option subst) (txt : str) : Prop :=
+  match r with Some s => answer_text fuel q s = Ok txt | None => txt = no_more end.
+
+Lemma solve_times_asks kb fuel q : forall n nd w txts nd' w',
+  quiet w -> node_goal_term nd = Some q ->
+  solve_times n fuel kb nd w = Ok (txts, nd', w') ->
+  exists rs, Asks kb fuel nd w rs nd' w' /\ Forall2 (solve_text fuel q) rs txts.
+Proof.
+  induction n as [|n IH]; intros nd w txts nd' w' Hq Hg H; cbn [solve_times] in H.
+  { inversion H; subst. exists []. split; constructor. }
+  destruct (solve fuel kb nd w) as [[[nd1 txt] w1]| |] eqn:Es; cbn [bind] in H; try discriminate.
+  destruct (solve_times n fuel kb nd1 w1) as [[[txts0 nd0] w0]| |] eqn:Et; cbn [bind] in H; try discriminate.
+  inversion H; subst. clear H.
+  destruct (solve_reports _ _ _ _ _ _ _ Es) as (sol & c & wa & En & -> & Ht).
+  rewrite (quiet_set_flag _ Hq) in En.
+  pose proof (quiet_next _ _ _ _ _ _ _ _ _ Hq En) as Hqa. rewrite (quiet_query_stopped _ Hqa) in *. cbn [fst snd] in *.
+  assert (node_goal_term nd1 = Some q) as Hg1.
+  { destruct nd as [t ss nobt child idx n0| |]; try discriminate. cbn in Hg. inversion Hg; subst t.
+    destruct (nc_call_shape kb fuel fuel _ _ _ _ _ _ _ _ _ _ _ En) as (b' & ch' & i' & ->). reflexivity. }
+  destruct (IH _ _ _ _ _ Hqa Hg1 Et) as (rs & HA & HF).
+  exists (sol :: rs). split; [eapply Asks_cons; eauto|]. constructor; [|exact HF].
+  destruct sol as [s|]; cbn [solve_text]; [|exact Ht].
+  destruct Ht as (q' & Hq' & Htxt). rewrite Hg1 in Hq'. inversion Hq'; subst. exact Htxt.
+Qed.
+
+Lemma solve_times_length : forall n fuel kb nd w txts nd' w',
+  solve_times n fuel kb nd w = Ok (txts, nd', w') -> length txts = n.
+Proof.
+  induction n as [|n IH]; intros fuel kb nd w txts nd' w' H; cbn [solve_times] in H.
+  - now inversion H.
+  - destruct (solve fuel kb nd w) as [[[nd1 txt] w1]| |]; cbn [bind] in H; try discriminate.
+    destruct (solve_times n fuel kb nd1 w1) as [[[txts0 nd0] w0]| |] eqn:Et; cbn [bind] in H; try discriminate.
+    inversion H; subst. cbn [length]. f_equal. eapply IH; eauto.
+Qed.
+
+Lemma forall2_length {A B} (P : A -> B -> Prop) l l' : Forall2 P l l' -> length l = length l'.
+Proof. induction 1; cbn [length]; congruence. Qed.
+
+Theorem solve_refines kb fuel q w fs R nd w1 n txts nd' w' :
+  quiet w ->
+  canswers kb fuel fs q w = Ok R ->
+  make_base_node kb (GCall q) w = Ok (nd, w1) ->
+  solve_times n fuel kb nd w1 = Ok (txts, nd', w') ->
+  Forall2 (solve_text fuel q) (map Some (firstn n (fst R)) ++ repeat None (n - length (fst R))) txts.
+Proof.
+  intros Hq Ha Hm H.
+  assert (make_node kb (GCall q) [] w = Ok (nd, w1)) as Hm' by exact Hm.
+  pose proof (quiet_make_node _ _ _ _ _ _ Hq Hm') as Hq1.
+  assert (node_goal_term nd = Some q) as Hg.
+  { simpl in Hm. destruct (term_key q) as [key| |]; cbn [bind] in Hm; try discriminate.
+    destruct (count_rules kb key w) as [n0 wc]. inversion Hm; subst. reflexivity. }
+  destruct (solve_times_asks kb fuel q n nd w1 txts nd' w' Hq1 Hg H) as (rs & HA & HF).
+  unfold canswers in Ha.
+  destruct (csolve kb fuel fs (GCall q) [] w (fun s w0 _ => Ok ([s], w0, Go))) as [[[a wE] g]| |] eqn:Ec; cbn [bind] in Ha; try discriminate.
+  injection Ha as <-. destruct fs as [|f0]; [discriminate|]. cbn [fst].
+  assert (cden kb fuel (S f0) nd w1 collect = Ok (a, wE, g)) as HD.
+  { eapply (cden_fresh kb fuel (GCall q) (S f0) (S f0)); [exact Hm'|lia|apply ckle_refl|exact Ec]. }
+  assert (ncutb nd = true) as Hn by (eapply make_node_ncut; [|exact Hm']; reflexivity).
+  destruct (asks_are_reference_answers _ _ _ _ _ _ _ HA (S f0) a wE g Hn ltac:(lia) HD) as [Hr _].
+  assert (length rs = n) as Hl.
+  { rewrite (forall2_length _ _ _ HF). eapply solve_times_length; eauto. }
+  rewrite Hl in Hr. rewrite <- Hr. exact HF.
+Qed.
